@@ -1,7 +1,7 @@
 (* Correspondence cases for C12: edit histories run against a real Core (directly through Core.APIConfig*, or over
    the HTTP Control API), with the configuration read back after every edit. *)
 From Coq Require Import List ZArith Bool.
-Require Export MTX.Model.C12_ApiEdit.
+Require Export MTX.Model.C12_ApiEdit MTX.Model.C12_FileReload.
 Import ListNotations.
 Local Open Scope Z_scope.
 
@@ -16,9 +16,23 @@ Record pobs := mkPath { pname : Z; pcell : option fmap; peff : option (fmap * li
 Record step := mkStep { sop : op; smust : bool; sout : outcome;
                         sgch : fmap; sgrem : list Z; sdch : fmap; sdrem : list Z; spaths : list pobs }.
 
+(* a reload of the configuration file: [fx*] = the file's configuration as an independent conf.Load by the driver gives
+   it, [fo*] = what is read back from the running Core after the watcher's signal has been handled; both as
+   differences to the previous read *)
+Record fstep := mkFile { fxgch : fmap; fxgrem : list Z; fxdch : fmap; fxdrem : list Z; fxpaths : list pobs;
+                         fogch : fmap; fogrem : list Z; fodch : fmap; fodrem : list Z; fopaths : list pobs }.
+
+Inductive hobs :=
+| SApi (st : step)
+| SFile (f : fstep)
+| SBroken (exited : bool)     (* the file does not load; observed: Core.run has closed p.done within the watchdog *)
+| SStartFail (st : step) (exited : bool).  (* an edit that is accepted but whose resources cannot be created *)
+
 Inductive case :=
 | History (m : mode) (name_f : Z) (g d : fmap) (paths : list pobs) (steps : list step)
-| Unanswered (m : mode).   (* an edit request got no answer at all (details in the case description) *)
+| Unanswered (m : mode)    (* an edit request got no answer at all (details in the case description) *)
+| FileHistory (m : mode) (name_f : Z) (g d : fmap) (paths : list pobs) (steps : list hobs)
+| NotReloaded (m : mode).  (* the file was rewritten and the running configuration did not change within the watchdog *)
 
 (* ---- helpers (own definitions: spec_fail below does not use the model) -------------------------------------- *)
 Fixpoint look (k : Z) (m : list (Z * Z)) : option Z :=
@@ -70,12 +84,49 @@ Fixpoint run_steps (name_f : Z) (w : world) (g d : fmap) (sts : list step) : boo
       out_eqb out (sout st) && view_agrees name_f (abs w') g' d' (spaths st) && run_steps name_f w' g' d' r
   end.
 
+(* histories with file reloads: the model is Model/C12_FileReload.hstep *)
+Fixpoint run_hsteps (name_f : Z) (st : option world) (g d : fmap) (sts : list hobs) : bool :=
+  match sts with
+  | [] => true
+  | SApi a :: r =>
+      match hstep (verdict a) st (HApi (sop a) true) with
+      | (Some w', HAnswer out) =>
+          let g' := patched g (sgch a) (sgrem a) in
+          let d' := patched d (sdch a) (sdrem a) in
+          out_eqb out (sout a) && view_agrees name_f (abs w') g' d' (spaths a) && run_hsteps name_f (Some w') g' d' r
+      | _ => false
+      end
+  | SFile f :: r =>
+      let fv := obs_view (patched g (fxgch f) (fxgrem f)) (patched d (fxdch f) (fxdrem f)) (fxpaths f) in
+      match hstep (fun _ => true) st (HFile (FLoaded fv true)) with
+      | (Some w', HReloaded) =>
+          let g' := patched g (fogch f) (fogrem f) in
+          let d' := patched d (fodch f) (fodrem f) in
+          view_agrees name_f (abs w') g' d' (fopaths f) && run_hsteps name_f (Some w') g' d' r
+      | _ => false
+      end
+  | SBroken exited :: r =>
+      match hstep (fun _ => true) st (HFile FBroken), r with
+      | (None, HExit), [] => exited
+      | _, _ => false
+      end
+  | SStartFail a exited :: r =>
+      match hstep (verdict a) st (HApi (sop a) false), r with
+      | (None, HAnswer OOk), [] => out_eqb (sout a) OOk && exited
+      | _, _ => false
+      end
+  end.
+
 Definition mismatch (c : case) : bool :=
   match c with
   | History _ name_f g d ps sts =>
       let w := load (obs_view g d ps) in
       negb (view_agrees name_f (abs w) g d ps && run_steps name_f w g d sts)
   | Unanswered _ => true
+  | FileHistory _ name_f g d ps sts =>
+      let w := load (obs_view g d ps) in
+      negb (view_agrees name_f (abs w) g d ps && run_hsteps name_f (Some w) g d sts)
+  | NotReloaded _ => true
   end.
 
 (* ---- the property on the observations alone --------------------------------------------------------------------------- *)
@@ -165,8 +216,41 @@ Fixpoint steps_ok (name_f : Z) (g d : fmap) (ps : list pobs) (sts : list step) :
                steps_ok name_f (patched g (sgch st) (sgrem st)) (patched d (sdch st) (sdrem st)) (spaths st) r
   end.
 
+(* after a reload of the file the configuration read back IS the file's: global fields, path defaults, exactly the
+   file's paths with exactly their fields (nothing an API edit did before survives) *)
+Definition pobs_same (ps ps' : list pobs) : bool :=
+  paths_same ps ps' && paths_same ps' ps &&
+  forallb (fun p => match peff p, existsb (fun q => pname q =? pname p) ps' with
+                    | Some (delta, []), true =>
+                        forallb (fun q => negb (pname q =? pname p) ||
+                                          match peff q with Some (delta', []) => same_map delta delta' | _ => false end) ps'
+                    | _, _ => false
+                    end) ps.
+
+Definition file_ok (name_f : Z) (g d : fmap) (f : fstep) : bool :=
+  let gx := patched g (fxgch f) (fxgrem f) in
+  let dx := patched d (fxdch f) (fxdrem f) in
+  let go := patched g (fogch f) (fogrem f) in
+  let do := patched d (fodch f) (fodrem f) in
+  same_map gx go && same_map dx do && pobs_same (fxpaths f) (fopaths f) && forallb (eff_ok name_f do) (fopaths f).
+
+Fixpoint hsteps_ok (name_f : Z) (g d : fmap) (ps : list pobs) (sts : list hobs) : bool :=
+  match sts with
+  | [] => true
+  | SApi st :: r => step_ok name_f g d ps st &&
+                    hsteps_ok name_f (patched g (sgch st) (sgrem st)) (patched d (sdch st) (sdrem st)) (spaths st) r
+  | SFile f :: r => file_ok name_f g d f &&
+                    hsteps_ok name_f (patched g (fogch f) (fogrem f)) (patched d (fodch f) (fodrem f)) (fopaths f) r
+  (* what the server does with a file that does not load / with resources that cannot be created is not part of the
+     property's statement: observed, compared with the model (mismatch), reported in the notes *)
+  | SBroken _ :: r => true
+  | SStartFail st _ :: r => negb (smust st)
+  end.
+
 Definition spec_fail (c : case) : bool :=
   match c with
   | History _ name_f g d ps sts => negb (forallb (eff_ok name_f d) ps && steps_ok name_f g d ps sts)
   | Unanswered _ => true
+  | FileHistory _ name_f g d ps sts => negb (forallb (eff_ok name_f d) ps && hsteps_ok name_f g d ps sts)
+  | NotReloaded _ => true
   end.
